@@ -690,10 +690,39 @@ Qed.
 Lemma decode_literal_long luau t :
   decode_literal luau (91 :: t) =
   match decode_long (91 :: t) with
-  | Some (v, []) => Some v
+  | Some (v, []) => Some (norm_newlines luau v)
   | _ => None
   end.
 Proof. reflexivity. Qed.
+
+(** a text without carriage return is left alone by the reader's line-break normalisation *)
+Lemma norm_newlines_id luau : forall s,
+  existsb (N.eqb 13) s = false -> norm_newlines luau s = s.
+Proof.
+  induction s as [|c r IH]; intros H; [reflexivity|].
+  cbn [existsb] in H. apply orb_false_iff in H as [Hc Hr].
+  cbn [norm_newlines].
+  assert (Hc' : (c =? 13) = false) by (rewrite N.eqb_sym; exact Hc).
+  rewrite Hc'.
+  destruct (c =? 10) eqn:E10.
+  - apply N.eqb_eq in E10. subst c.
+    destruct r as [|d r']; [reflexivity|].
+    cbn [existsb] in Hr. apply orb_false_iff in Hr as [Hd Hr'].
+    assert (Hd13 : d <> 13) by (intros ->; discriminate).
+    rewrite (IH (proj2 (orb_false_iff _ _) (conj Hd Hr'))).
+    destruct d as [|p]; [reflexivity|].
+    do 4 (destruct p as [p|p|]; try reflexivity); exfalso; apply Hd13; reflexivity.
+  - rewrite (IH Hr). reflexivity.
+Qed.
+
+Lemma no_quoted_no_cr : forall s, existsb needs_quoted_string s = false -> existsb (N.eqb 13) s = false.
+Proof.
+  induction s as [|c r IH]; intros H; [reflexivity|].
+  cbn [existsb] in *. apply orb_false_iff in H as [Hc Hr].
+  rewrite (IH Hr), orb_false_r.
+  destruct (13 =? c) eqn:E; [|reflexivity].
+  apply N.eqb_eq in E. subst c. discriminate.
+Qed.
 
 Lemma write_string_single c : c < 256 -> decode_literal true (write_string [c]) = Some [c].
 Proof.
@@ -740,5 +769,6 @@ Proof.
     assert (exists t', t = 91 :: t') as [t' ->].
     { unfold write_long_bracket in W. destruct (utf8_decode s); [|discriminate].
       cbv zeta in W. injection W as <-. eexists; reflexivity. }
-    rewrite decode_literal_long, D. reflexivity.
+    rewrite decode_literal_long, D.
+    rewrite (norm_newlines_id true s (no_quoted_no_cr s C)). reflexivity.
 Qed.
